@@ -467,6 +467,17 @@ func init() {
 				{Src: "hardlinks", Dst: "/opt/hardlinks", Type: "tree"},
 				{Src: "hardlinks/*.bin", Dst: "/opt/hardlinks-glob"},
 				// (the link itself as source - no trailing slash, or as a tree - has no documented meaning: not judged)
+				// trees with a declared mode that has read bits without the matching search bits: declared is declared,
+				// for the directories of the tree as for its files
+				{Src: "tree", Dst: "/opt/tree644", Type: "tree", Mode: 0o644},
+				{Src: "tree", Dst: "/opt/tree600", Type: "tree", Mode: 0o600, Owner: "app"},
+				{Src: "tree/sub", Dst: "/opt/tree640", Type: "tree", Mode: 0o640},
+				// paths written with a blank at the end (expand off: shipped as written), a source named with blanks
+				{Src: "share/ww.txt", Dst: "/opt/blank-end "},
+				{Dst: "/var/lib/blank-dir ", Type: "dir"},
+				{Src: "/t ", Dst: "/opt/blank-target-link", Type: "symlink"},
+				{Src: "oddnames/trailing-blank ", Dst: "/opt/from-blank-source"},
+				{Src: "etc/app.conf", Dst: "/etc/blank-end.conf ", Type: "config"},
 			}
 			for _, s := range []Setting{sets[0], {Name: "umask=077", Umask: 0o077}, {Name: "mtime=unset", MTime: "unset"}} {
 				for _, e := range odd {
@@ -788,6 +799,16 @@ func comparePayload(f string, pkg *pkgread.Pkg, want model.PlanResult, pkgMTime 
 		case "ghost":
 			if !g.NoData {
 				viol("payload:ghost-has-data:"+tag, "ghost %q has payload data", g.Path)
+			}
+			// what the entry declares about a file the package owns without shipping it is stated all the same
+			if w.Mode != 0 && os.FileMode(g.Mode) != w.Mode {
+				viol("payload:mode:"+tag+":ghost", "ghost %q has mode %#o, declared %#o", g.Path, g.Mode, uint32(w.Mode))
+			}
+			if g.Owner != w.Owner || g.Group != w.Group {
+				viol("payload:owner:"+tag+":ghost", "ghost %q is owned by %q:%q, expected %q:%q", g.Path, g.Owner, g.Group, w.Owner, w.Group)
+			}
+			if !w.MTime.IsZero() && g.MTime != w.MTime.Unix() {
+				viol("payload:mtime:"+tag+":ghost", "ghost %q has mtime %s, expected %s", g.Path, time.Unix(g.MTime, 0).UTC().Format(time.RFC3339), w.MTime.UTC().Format(time.RFC3339))
 			}
 		default:
 			if g.Kind != "file" {
